@@ -47,6 +47,37 @@ func bigCfg(bf uint, n int, format string) *world.Config {
 	return c
 }
 
+// bigCfgFrom: the same family shifted to start right above lo = bf^L, itself an absent key of layer L: a
+// high-layer key that becomes the new minimum of the whole tree when inserted (everything else lies to its
+// right), next to the absent keys inside and beyond the tree.
+func bigCfgFrom(bf uint, L int, n int, format string) *world.Config {
+	lo := uint(1)
+	for i := 0; i < L; i++ {
+		lo *= bf
+	}
+	var keys, probes []interface{}
+	probes = append(probes, lo)
+	if lo > bf {
+		probes = append(probes, lo-bf, lo/bf) // further absent keys below the minimum, of lower layers
+	}
+	for i := lo + 1; i <= lo+uint(n); i++ {
+		if i%5 == 0 {
+			probes = append(probes, i)
+		} else {
+			keys = append(keys, i)
+		}
+	}
+	for p := uint(5) * bf; p < 1<<20; p *= bf {
+		if p > lo+uint(n) {
+			probes = append(probes, p)
+		}
+	}
+	c := world.UintCfg(bf, keys, 1, format, "none")
+	c.Name = fmt.Sprintf("seeded/uint %d..%d without multiples of 5/bf%d/%s", lo+1, lo+uint(n), bf, format)
+	c.Probes = probes
+	return c
+}
+
 func buildBig(cfg *world.Config, skip map[int]bool, extra []int) (*bigTree, error) {
 	w, err := world.New(cfg)
 	if err != nil {
@@ -85,12 +116,16 @@ func bigC16(run *report.Run, acc *pairAcc) {
 	specs := []struct {
 		bf uint
 		n  int
-	}{{2, 75}, {3, 100}, {4, 150}, {16, 300}}
+		L  int // > 0: the tree starts right above bf^L (bigCfgFrom)
+	}{{2, 75, 0}, {3, 100, 0}, {2, 75, 6}, {4, 644, 4}, {3, 150, 4}, {4, 150, 0}, {16, 300, 0}, {16, 300, 2}}
 	if !run.Thorough() {
-		specs = specs[:2] // the tall ones: heights 5-6, keys and probes of layers up to 5
+		specs = specs[:5] // the tall ones: heights 4-6, keys and probes of layers up to 6
 	}
 	for _, spec := range specs {
 		cfg := bigCfg(spec.bf, spec.n, ref.FormatBinary)
+		if spec.L > 0 {
+			cfg = bigCfgFrom(spec.bf, spec.L, spec.n, ref.FormatBinary)
+		}
 		bt, err := buildBig(cfg, nil, nil)
 		if err != nil {
 			run.HarnessError("%s: %v", cfg.Name, err)
@@ -362,6 +397,14 @@ func tallC15(run *report.Run, acc *pairAcc, n int, gridStep int) {
 		rootA, err := ta.MakeRoot(ctx)
 		if err != nil {
 			continue
+		}
+		// the base against A: where A has a pass-through node, the base has a keyed one at the same place (and the other way
+		// round in the reversed pair); everything below is common to both versions and must be skipped unread
+		if a0, a1 := mk(root0), mk(rootA); a0 != nil && a1 != nil {
+			pairs += 2
+			desc := []string{cfg.Name, fmt.Sprintf("version A = all keys; version B = A without key %d (layer %d)", h, ref.UintLayer(uint64(h), 2))}
+			acc.add(cfg, "C15", checkDiffCost(cfg, a0, a1), desc)
+			acc.add(cfg, "C15", checkDiffCost(cfg, a1, a0), desc)
 		}
 		// second positions: a grid over all keys, and every other high-layer key (a short changed path
 		// keeps D small, which is when the bound is tight)
